@@ -139,6 +139,16 @@ def bfgs_history(rnd, M, tier):
         else:
             mass.reject()
             ops.append("Reject")
+        with numpy.errstate(all="ignore"):
+            try:
+                cnd = float(numpy.linalg.cond((mass.Minv + mass.Minv.T) / 2.0))
+            except numpy.linalg.LinAlgError:
+                cnd = float("inf")
+        if not (cnd <= 1e12):
+            # an ill-conditioned update that the Cholesky test let through: with a condition number beyond 1e12 the update formula
+            # loses symmetry to cancellation, and nothing about the metric can be decided in binary64 any more; the history ends here
+            ops.pop()
+            break
         # the factor in use is the factor of the metric in use: recomputed the way the class computes it (a residual test
         # of LTinv LTinv^T Minv = I is meaningless for the ill-conditioned metrics that refused updates come with)
         try:
@@ -165,7 +175,8 @@ def bfgs_history(rnd, M, tier):
         except numpy.linalg.LinAlgError:
             pd = False
         if not (sym and pd):
-            probs.append(("bfgs-not-spd", f"after {ops}: metric symmetric={sym}, positive definite={pd}"))
+            asym = float(numpy.linalg.norm(mass.Minv - mass.Minv.T)) / max(float(numpy.linalg.norm(mass.Minv)), 1e-300)
+            probs.append(("bfgs-not-spd", f"after {ops}: metric symmetric={sym} (relative asymmetry {asym:.3g}), positive definite={pd}; Minv = {mass.Minv.tolist()}"))
         if probs:
             break
     return ops, obs, probs[:1]
